@@ -123,7 +123,7 @@ def debug_text_precedes_field(n):
             vals = n.parent.a.values
             i = vals.index(n.a)
             if i and isinstance(vals[i - 1], ast.Constant) and getattr(vals[i - 1], 'f', None) is not None and vals[i - 1].f.loc is not None and \
-                    (vals[i - 1].f.loc[0], vals[i - 1].f.loc[1]) > (n.loc[0], n.loc[1]):
+                    (vals[i - 1].f.loc[2], vals[i - 1].f.loc[3]) > (n.loc[0], n.loc[1]):        # the text Constant reaches into (or starts inside) the field: the two overlap
                 return True
         n = n.parent
     return False
@@ -310,7 +310,7 @@ def stage_oracle(ctx: Ctx, progs):
                     # must be a deepest container: no located descendant of it also contains the rectangle (exact matches allowed by default)
                     deeper = [f for f in containing if f is not got_cont and is_desc(f, got_cont) and tuple(f.bloc) != tuple(gl) and (f.bloc[2], f.bloc[3]) > (ln, col)]
                     if deeper:
-                        ctx.violation('find_contains_loc|debug-field-text-precedes-field' if debug_text_precedes_field(deeper[-1]) else 'find_contains_loc-deepest', 'find_contains_loc did not return the deepest containing node',
+                        ctx.violation('find_contains_loc|debug-field-text-overlaps-field' if debug_text_precedes_field(deeper[-1]) else 'find_contains_loc-deepest', 'find_contains_loc did not return the deepest containing node',
                                       {'src': src, 'rect': rect, 'got': repr(got_cont), 'deeper': repr(deeper[-1])})
             elif containing and root.loc is not None and tuple(root.loc) != tuple(rect):
                 ctx.violation('find_contains_loc-none', 'find_contains_loc found nothing although nodes contain the rectangle', {'src': src, 'rect': rect, 'n_containing': len(containing)})
@@ -329,7 +329,7 @@ def stage_oracle(ctx: Ctx, progs):
             exact = [f for f in containing if tuple(f.bloc) == tuple(rect)]
             want_top = exact[0] if exact else got_cont
             if got_top is not want_top:
-                ctx.violation('find_contains_loc|debug-field-text-precedes-field' if want_top is not None and debug_text_precedes_field(want_top) else 'find_contains_loc-top', "find_contains_loc(allow_exact='top') did not return the highest node that matches the rectangle exactly (or, without one, the default result)",
+                ctx.violation('find_contains_loc|debug-field-text-overlaps-field' if want_top is not None and debug_text_precedes_field(want_top) else 'find_contains_loc-top', "find_contains_loc(allow_exact='top') did not return the highest node that matches the rectangle exactly (or, without one, the default result)",
                               {'src': src, 'rect': rect, 'got': repr(got_top), 'want': repr(want_top), 'exact_matches': [repr(x) for x in exact]})
             strict = [f for f in containing if tuple(f.bloc) != tuple(rect)]
             if (got_strict is None) != (not strict):
@@ -339,7 +339,7 @@ def stage_oracle(ctx: Ctx, progs):
                 gl = got_strict.bloc
                 deeper_s = [f for f in strict if f is not got_strict and is_desc(f, got_strict) and tuple(f.bloc) != tuple(gl) and (f.bloc[2], f.bloc[3]) > (ln, col)]
                 if got_strict not in strict or deeper_s:
-                    ctx.violation('find_contains_loc|debug-field-text-precedes-field' if deeper_s and debug_text_precedes_field(deeper_s[-1]) else 'find_contains_loc-strict', 'find_contains_loc(allow_exact=False) did not return the deepest node that contains the rectangle without being exactly it',
+                    ctx.violation('find_contains_loc|debug-field-text-overlaps-field' if deeper_s and debug_text_precedes_field(deeper_s[-1]) else 'find_contains_loc-strict', 'find_contains_loc(allow_exact=False) did not return the deepest node that contains the rectangle without being exactly it',
                                   {'src': src, 'rect': rect, 'got': repr(got_strict)})
             exact_loc = [f for f, l in located if tuple(l) == tuple(rect)]
             for et in (False, True):
